@@ -363,6 +363,14 @@ func (t *c07HandleTr) stmts(l []ast.Stmt, ind string) (string, error) {
 				bl = bl[1:]
 			}
 		}
+		// if value, err = v.invoke(value); err != nil { … }  is the assignment followed by the test
+		if len(bl) == 1 {
+			if ie, ok := bl[0].(*ast.IfStmt); ok && ie.Init != nil && ie.Else == nil {
+				if as, ok := ie.Init.(*ast.AssignStmt); ok && as.Tok == token.ASSIGN {
+					bl = []ast.Stmt{as, &ast.IfStmt{If: ie.If, Cond: ie.Cond, Body: ie.Body}}
+				}
+			}
+		}
 		if len(bl) != 2 {
 			return "", fmt.Errorf("%s: the loop body is not `value, err = v.invoke(value); if err != nil { return nil, err }`", t.what)
 		}
